@@ -26,6 +26,11 @@ Definition filter_chans (tbl : list chan) (allow : list bytes) : list chan * boo
 
 Inductive kind := KSocket | KPacket | KDns | KStdio.
 
+(* the http server: one allow-list per websocket path; any path whose Filter fails aborts start-up of the whole server *)
+Definition startup_http (tbl : list chan) (allows : list (list bytes)) : option (list (list chan)) :=
+  let rs := map (filter_chans tbl) allows in
+  if existsb snd rs then None else Some (map fst rs).
+
 (* Startup: which channel list the endpoint serves; None = start-up aborted.
    The stdio server swallows the Filter error (returns WithStack of a nil variable) and serves nothing. *)
 Definition startup (k : kind) (tbl : list chan) (allow : list bytes) : option (list chan) :=
@@ -76,6 +81,30 @@ Definition dispatch_c03 (ts : list tok) : list tok :=
         let outs := map (route served) reqs in
         head ++ flat_map (fun o => match o with Some t => [W "dial"; Tnat t] | None => [W "refused"] end) outs
              ++ [W "dials"] ++ flat_map (fun o => match o with Some t => [Tnat t] | None => [] end) outs
+    else if is_word "c03multi" op || is_word "c03http" op then
+      let (names, r1) := parse_names rest in
+      let tbl := tag_names names 0 in
+      match r1 with
+      | TI ne :: r2 =>
+        let fix eps (n : nat) (ts : list tok) : list (list bytes) * list tok :=
+          match n with
+          | O => ([], ts)
+          | S n' => let (al, r) := parse_names ts in let (l, r') := eps n' r in (al :: l, r')
+          end in
+        let (allows, r3) := eps (Z.to_nat ne) r2 in
+        let (reqs, _) := parse_names r3 in
+        let answer served := flat_map (fun rq => match route served rq with Some t => [W "dial"; Tnat t] | None => [W "refused"] end) reqs in
+        if is_word "c03multi" op then
+          flat_map (fun al => let (served, err) := filter_chans tbl al in
+                              if err then [W "ep"; W "err"]
+                              else [W "ep"; W "ok"; Tnat (List.length served)] ++ map (fun c => Tnat (snd c)) served ++ answer served) allows
+        else
+          match startup_http tbl allows with
+          | None => [W "abort"]
+          | Some lists => W "started" :: flat_map (fun served => W "path" :: answer served) lists
+          end
+      | _ => [W "model-error"]
+      end
     else if is_word "c03start" op then
       match rest with
       | k :: rest' =>
